@@ -80,6 +80,15 @@ Theorem C01_des_roundtrip_var_and_string : forall l bs mn mx p rest o,
   dstep (mkD (p ++ bs ++ rest) o None) (DString l mn mx) = SOk (mkD rest (o + lpt_size l + length bs) None) (OBytes bs) c.
 Proof. exact des_var_roundtrip. Qed.
 
+(* Known finding payload-type-only-at-end: a payload that is its 4-byte type code alone (what WritePayload emits for such
+   an object: 04 00 00 00 01 00 00 00) is rejected by ReadPayload at the end of the input (MinPayloadByteSize = 5 is
+   compared with what remains behind the length field) and read as soon as one more byte follows. *)
+Theorem C01_refuted_payload_type_only_at_end :
+  let sel := hsel 4 0 2 in
+  dstep (dinit [4; 0; 0; 0; 1; 0; 0; 0]%N) (DPayload sel) = SOk (mkD [1; 0; 0; 0]%N 4 (Some ENotEnough)) ONone 0 /\
+  dstep (dinit [4; 0; 0; 0; 1; 0; 0; 0; 9]%N) (DPayload sel) = SOk (mkD [9]%N 8 None) (OBytes [1; 0; 0; 0]%N) 0.
+Proof. split; vm_compute; reflexivity. Qed.
+
 (* non-vacuity of the guards *)
 Example C01_guards_inhabited :
   fault_free [Give 1; Half; Give 3; Half] /\ typed (TNum I16) (SVNum (-32768)) /\ typed (TArr 36) (SVBytes (repeat 7%N 36)) /\
@@ -106,3 +115,4 @@ Print Assumptions C01_des_roundtrip_bool.
 Print Assumptions C01_des_roundtrip_bytes.
 Print Assumptions C01_des_roundtrip_var_and_string.
 Print Assumptions C01_stream_refuted_pinned.
+Print Assumptions C01_refuted_payload_type_only_at_end.
